@@ -15,7 +15,7 @@ EXTENDS OneWay, TLC
 CONSTANTS QueueMode, QCap, MaxConn, NPacks,
           Stall,      \* BOOLEAN: the environment may stall a peer in the middle of a socket write
           Broken      \* "none", or a deliberately broken design TLC must refute:
-                      \* "nolock" | "keepwriter" | "wdial" | "stalelic" | "evict" | "dialpart" | "resetwriter"
+                      \* "nolock" | "keepwriter" | "wdial" | "stalelic" | "evict" | "dialpart" | "resetwriter" | "widle"
 
 AllPacks == { [id |-> 1, owner |-> "s1", pcode |-> 7, lic |-> NoLic, body |-> 1, big |-> FALSE],
               [id |-> 2, owner |-> "s1", pcode |-> 8, lic |-> "LB",  body |-> 2, big |-> TRUE],
@@ -104,6 +104,10 @@ FlushResetWriter(a, d) ==
   /\ UNCHANGED <<conf, lock, cur, fr, conn, nconn, listener, queue, reg, okset, errset, streak>>
 DoFlushResetWriter == \E a \in Actor, d \in 0..Len(wbuf) : FlushResetWriter(a, d)
 
+\* broken design "widle": in direct mode the idle worker flushes the shared writer on its own, without the send lock
+\* (OneWay!WorkerIdleFlush): on a healthy connection a frame arrives twice, or a copy of its beginning is wedged in
+DoWorkerIdleFlush == Broken = "widle" /\ \E u \in 1..Len(wbuf) : WorkerIdleFlush(u)
+
 \* configuration changes between sends: the default license toggles between LA and LD, the capacity of the queue
 \* between QCap and QCap - 1, the server list between the subsets of the collector addresses (none: the client points
 \* somewhere else); by field or by ApplyConfig,
@@ -141,7 +145,7 @@ SendSteps == \/ DoBuild \/ DoConnectOk \/ DoConnectFail \/ DoConnectFailPartial 
 (* The actions of the other mode are disabled by their own guards (Call:    *)
 (* ~conf.queue; Lock/Unlock/Return follow a Call; Enqueue, EnqueueFull,     *)
 (* Dequeue, IdleFlush: conf.queue; the worker moves only after a Dequeue).  *)
-DirectSteps == DoCall \/ DoLock \/ DoUnlock \/ DoReturn \/ DoWorkerDialRacy
+DirectSteps == DoCall \/ DoLock \/ DoUnlock \/ DoReturn \/ DoWorkerDialRacy \/ DoWorkerIdleFlush
 QueueSteps  == DoEnqueue \/ DoEnqueueFull \/ DoEnqueueEvict \/ Dequeue \/ WorkerSkipFlush \/ WorkerDone \/ DoIdleFlush
 ClientNext  == DirectSteps \/ QueueSteps \/ SendSteps
 
